@@ -45,6 +45,10 @@ type Solver struct {
 	cache      map[string]satResult
 	cacheHits  int
 	useEval    bool
+	// cross-solver diff: every dumpEvery-th decided query is written as a standalone script
+	dumpDir   string
+	dumpEvery int
+	dumped    int
 }
 
 func newSolver(bin string, args []string, timeoutMS int, transcript string) (*Solver, error) {
@@ -194,6 +198,16 @@ func (s *Solver) check(lits []*Term) satResult {
 	}
 	if res != resUnknown {
 		s.cache[key] = res
+		if s.dumpDir != "" && s.dumpEvery > 0 && s.nQueries%s.dumpEvery == 0 && s.dumped < 200 {
+			s.dumped++
+			if f, err := os.Create(fmt.Sprintf("%s/q%06d_%s.smt2", s.dumpDir, s.nQueries, res)); err == nil {
+				w := bufio.NewWriter(f)
+				fmt.Fprintf(w, "; expected: %s\n", res)
+				dumpStandalone(w, lits)
+				w.Flush()
+				f.Close()
+			}
+		}
 	}
 	return res
 }
